@@ -52,8 +52,13 @@ def gen_config(case, kind):
     yy, xx = np.mgrid[0:ny, 0:nx]
     xc = nx / 2 + rng.uniform(-4, 4)
     yc = ny / 2 + rng.uniform(-4, 4)
+    if rng.random() < 0.5:
+        # one-sided edges / exact (half-)integer centres (even and odd k)
+        xc, yc, _edge = AX.edge_position(case, 'profile', (ny, nx), margin=10.0, reach=4.0)
     if cen_form == 4:
         xc, yc = float(round(xc)), float(round(yc))
+    dk = AX.dtype_kind(case, 'profile_data', p_plain=0.65)
+    mkind = AX.mask_kind(case, 'profile')
     if degenerate == 'off_image':
         xc = float(nx + rng.uniform(30, 60))
     if rng.random() < 0.15:          # source near the edge: apertures overhang the image
@@ -83,6 +88,11 @@ def gen_config(case, kind):
     unit = [u.Jy, u.mJy][int(rng.integers(0, 2))] if rng.random() < 0.25 else None
     data = data * mag
     error = None if error is None else error * mag
+    if mkind.kind == 'all_false' and degenerate is None:
+        mask = np.zeros((ny, nx), bool)
+    data = dk(data, mag)
+    if dk.kind in ('float32', 'float16') and error is not None:
+        error = error.astype(np.float32)
     method = str(rng.choice(['exact', 'exact', 'center', 'subpixel']))
     rmax = float(rng.uniform(6, max(7.0, min(18, n / 2))))     # may overhang a narrow image
     nr = int(rng.integers(4, 14))
@@ -117,7 +127,7 @@ def gen_config(case, kind):
             e = None if e is None else e * unit
         return cls(d, cen(), rad_form(radii), error=e, mask=lay_m(mask), method=method, subpixels=3)
 
-    params = dict(kind=kind, shape=[ny, nx], magnitude=mag, degenerate=degenerate, xycen=[round(xc, 3), round(yc, 3)], nradii=len(radii), r0=round(r0, 3),
+    params = dict(kind=kind, shape=[ny, nx], magnitude=mag, degenerate=degenerate, dtype=dk.kind, xycen=[round(xc, 3), round(yc, 3)], nradii=len(radii), r0=round(r0, 3),
                   rmax=round(rmax, 3), method=method, unit=str(unit), **flags)
     digest = core.arr_digest(data, error, mask, radii, np.array(xycen))
     return build, params, digest, radii
@@ -151,6 +161,12 @@ def _cmp(case, o_live, o_twin, what, mech, rtol=0.0, devname=None):
         ua = str(getattr(o_live.value, 'unit', None))
         ub = str(getattr(o_twin.value, 'unit', None))
         case.check(ua == ub, what + ':unit', mech, live_unit=ua, twin_unit=ub)
+        a, b = O.Out(True, value=_val(o_live.value)), O.Out(True, value=_val(o_twin.value))
+        return O.compare(case, a, b, what, mech, rtol=rtol, devname=devname)
+    if (o_live.ok and o_twin.ok and isinstance(o_live.value, np.ndarray) and isinstance(o_twin.value, np.ndarray)
+            and o_live.value.dtype.kind != o_twin.value.dtype.kind):
+        # dtype kind first (own `what`), then the numbers as float64
+        case.check(False, what + ':dtype', mech, live=str(o_live.value.dtype), twin=str(o_twin.value.dtype))
         a, b = O.Out(True, value=_val(o_live.value)), O.Out(True, value=_val(o_twin.value))
         return O.compare(case, a, b, what, mech, rtol=rtol, devname=devname)
     return O.compare(case, o_live, o_twin, what, mech, rtol=rtol, devname=devname)
@@ -230,7 +246,8 @@ def run(case, kind):
         first = attr not in seen
         if attr == 'data_profile' and first and normalized:
             dp_bad = True
-        mech = dict(base, attr=attr, first_read=bool(first), units=params['unit'] != 'None')
+        mech = dict(base, attr=attr, first_read=bool(first), units=params['unit'] != 'None',
+                    int_data=params.get('dtype', 'float64') not in ('float64', 'float32', 'float16'))
         if attr == 'data_profile':
             mech['dp_first_read_normalized'] = bool(dp_bad)
         # data_profile is cached at different times on the live object and on the twins, so after a
